@@ -476,10 +476,30 @@ let av1enc_mode () =
     | _ -> ()
   done with End_of_file -> ())
 
+(* explicit: every mux case rewritten with encode_* calls replaced by explicit-timestamp writes *)
+let words_of_op (o : op) (orig : string list) : string list = match o with
+  | WV (p, d, k) -> ["wv"; hex_of_n p; (if d = [] then "-" else hex_of_bytes d); s01 k]
+  | WA (p, d) -> ["wa"; hex_of_n p; (if d = [] then "-" else hex_of_bytes d)]
+  | _ -> orig
+
+let explicit_mux id (bops : bop list) (script : sink_ev list) (ops : string list list) =
+  Printf.printf "case %s\n" id;
+  (match build (run_builder bops) script with
+   | Inr _ -> print_endline "nobuild"
+   | Inl m0 ->
+       let os = List.map op_of_words ops in
+       let xs = explicit_of m0 os in
+       let rec go xs ws = match xs, ws with
+         | x :: xt, w :: wt -> print_endline ("o " ^ String.concat " " (words_of_op x w)); go xt wt
+         | _, _ -> () in
+       go xs ops);
+  print_endline "end"
+
 let () =
   if Array.length Sys.argv > 1 && Sys.argv.(1) = "av1enc" then (av1enc_mode (); exit 0);
   if Array.length Sys.argv > 1 && Sys.argv.(1) = "pairs" then (pairs_mode (); exit 0);
   if Array.length Sys.argv > 1 && Sys.argv.(1) = "cli" then (cli_mode (); exit 0);
+  let explicit = Array.length Sys.argv > 1 && Sys.argv.(1) = "explicit" in
   let check = Array.length Sys.argv > 2 && Sys.argv.(1) = "check" in
   let impl = if check then impl_blocks Sys.argv.(2) else Hashtbl.create 1 in
   let blk id = try Hashtbl.find impl id with Not_found -> [] in
@@ -509,6 +529,10 @@ let () =
                        fc_fragment_duration_ms = n_of_hex fd; fc_sps = bytes_of_hex sps; fc_pps = bytes_of_hex pps;
                        fc_vps = opt_hex vps; fc_av1 = opt_hex av1; fc_vp9 = vp9c }
       | "o" :: w -> ops := w :: !ops
+      | ["end"] when explicit ->
+          (match !cur_kind with
+           | "mux" -> explicit_mux !cur_id (List.rev !bops) !script (List.rev !ops)
+           | _ -> ())
       | ["end"] ->
           if check then begin
             (match !cur_kind with
